@@ -59,6 +59,13 @@ def steps(node):
         if k in ("int", "long"):
             out.append((f"union-promotable-before-exact-{k}", ["float", base]))
             out.append((f"union-exact-before-promotable-{k}", [base, "double"]))
+            out.append((f"union-promotable-before-exact-dictform-{k}", ["double", {"type": base}]))
+        if k in ("string", "bytes"):
+            other = "bytes" if k == "string" else "string"
+            out.append((f"union-promotable-before-exact-{k}", [other, base]))
+            out.append((f"union-promotable-before-exact-dictform-{k}", [other, {"type": base, "x-attr": "v"}]))
+        if k == "float":
+            out.append(("union-promotable-before-exact-dictform-float", ["double", {"type": "float"}]))
         out.append((f"to-dict-form-{k}", {"type": base}))
     elif k == "union":
         out.append(("union-add-branch", list(node) + [{"type": "fixed", "name": "AddedFx", "size": 1}]))
@@ -138,6 +145,92 @@ def _refs_ok(s):
         return False
 
 
+def _rename_refs(s, old_full, old_ns, old_simple, new_full):
+    """rewrite by-name references to a renamed type (full name, or simple name inside the same namespace)"""
+    def walk(x, ns):
+        if isinstance(x, list):
+            return [walk(b, ns) for b in x]
+        if isinstance(x, str):
+            if x == old_full or (x == old_simple and ns == old_ns):
+                return new_full
+            return x
+        if isinstance(x, dict):
+            d = dict(x)
+            t = x.get("type")
+            cns = ns
+            if t in ("record", "error", "enum", "fixed") and "name" in x:
+                from vf.oracles.ir import fullname
+                cns, _ = fullname(x["name"], x.get("namespace"), ns)
+            if "fields" in d and isinstance(d["fields"], list):
+                d["fields"] = [dict(f, type=walk(f["type"], cns)) for f in d["fields"]]
+            if t == "array":
+                d["items"] = walk(x["items"], ns)
+            elif t == "map":
+                d["values"] = walk(x["values"], ns)
+            elif isinstance(t, (dict, list)):
+                d["type"] = walk(t, ns)
+            return d
+        return x
+    return walk(s, "")
+
+
+def _definitions_first(s):
+    """re-establish 'definition at first use': walking in document order, the first occurrence of a named type
+    (definition or reference) becomes the definition, later ones references (used after reordering fields)"""
+    from vf.oracles.ir import fullname
+    defs = {}
+
+    def collect(x, ns):
+        if isinstance(x, list):
+            for b in x:
+                collect(b, ns)
+        elif isinstance(x, dict):
+            t = x.get("type")
+            cns = ns
+            if t in ("record", "error", "enum", "fixed") and "name" in x:
+                cns, full = fullname(x["name"], x.get("namespace"), ns)
+                defs[full] = (x, ns)
+            for f in x.get("fields", []) if isinstance(x.get("fields"), list) else []:
+                collect(f["type"], cns)
+            if t == "array":
+                collect(x["items"], ns)
+            elif t == "map":
+                collect(x["values"], ns)
+    collect(s, "")
+    done = set()
+
+    def rebuild(x, ns):
+        if isinstance(x, list):
+            return [rebuild(b, ns) for b in x]
+        if isinstance(x, str):
+            full = x if ("." in x or not ns) else ns + "." + x
+            if full in defs and full not in done:
+                d, dns = defs[full]
+                q = dict(d)
+                q["name"] = full
+                q.pop("namespace", None)
+                return rebuild(q, "")
+            return full if full in defs else x
+        if isinstance(x, dict):
+            t = x.get("type")
+            d = dict(x)
+            cns = ns
+            if t in ("record", "error", "enum", "fixed") and "name" in x:
+                cns, full = fullname(x["name"], x.get("namespace"), ns)
+                if full in done:
+                    return full
+                done.add(full)
+            if isinstance(x.get("fields"), list):
+                d["fields"] = [dict(f, type=rebuild(f["type"], cns)) for f in x["fields"]]
+            if t == "array":
+                d["items"] = rebuild(x["items"], ns)
+            elif t == "map":
+                d["values"] = rebuild(x["values"], ns)
+            return d
+        return x
+    return rebuild(s, "")
+
+
 def readers(writer):
     """list of (label, reader schema): identity + every step at every position"""
     out = [("identity-copy", copy.deepcopy(writer))]
@@ -145,12 +238,37 @@ def readers(writer):
     for path, node in positions(writer):
         for label, new in steps(node):
             r = replace_at(writer, path, copy.deepcopy(new))
+            if "rename" in label and isinstance(node, dict) and isinstance(new, dict) and "name" in node and "name" in new:
+                # references to the renamed type follow the new name (the reader is a consistent schema)
+                from vf.oracles.ir import fullname
+                # namespace context of the node: recompute from the path
+                ctx_ns = _ns_at(writer, path)
+                ons, ofull = fullname(node["name"], node.get("namespace"), ctx_ns)
+                _, nfull = fullname(new["name"], new.get("namespace"), ctx_ns)
+                r = _rename_refs(r, ofull, ons, node["name"].split(".")[-1], nfull)
+            if "reorder" in label or "drop-first" in label:
+                try:
+                    r = _definitions_first(r)
+                except Exception:
+                    pass
             key = repr(r)
             if key in seen or not _refs_ok(r) or not _valid_unions(r):
                 continue
             seen.add(key)
             out.append((label + "@" + "/".join(map(str, path)), r))
     return out
+
+
+def _ns_at(s, path):
+    """enclosing namespace at a path of the raw schema"""
+    from vf.oracles.ir import fullname
+    ns = ""
+    cur = s
+    for p in path:
+        if isinstance(cur, dict) and cur.get("type") in ("record", "error") and "name" in cur:
+            ns, _ = fullname(cur["name"], cur.get("namespace"), ns)
+        cur = cur[p]
+    return ns
 
 
 def _valid_unions(s):
